@@ -259,3 +259,28 @@ Definition l_attach (explicit equal : bool) (s : lstate) : lstate :=
   let '(a, s1) := l_new s in
   if explicit || equal then let '(b, s2) := l_new s1 in l_set_attr (a, b) s2 else l_free a s1.
 Definition l_get (s : lstate) : option (nat * nat) := attr s.
+
+(* ---- MPI_Comm_dup of a communicator that carries the attachment (sc_mpi_node_comms_copy) -------------------------- *)
+(* MPI_Comm_dup: a new communicator with the same group in the same rank order *)
+Definition comm_dup (l : list nat) : list nat := l.
+(* the copy callback: slot 0 of the duplicate is a duplicate of slot 0 (intranode), slot 1 of slot 1 (internode) *)
+Definition dup_comms (nc : node_comms) : node_comms := mk_nc (comm_dup (intra nc)) (comm_dup (inter nc)).
+Definition comms_dup (comms : nat -> option node_comms) (r : nat) : option node_comms := option_map dup_comms (comms r).
+(* life cycle: the duplicate's attribute value is a pair of NEW communicators (ids in creation order: first the
+   duplicate of slot 0, then of slot 1); the original's attribute is untouched.  Without attachment nothing happens. *)
+Definition l_dup (s : lstate) : lstate * option (nat * nat) :=
+  match attr s with
+  | Some _ => (mk_ls (S (next_id s) :: next_id s :: live s) (S (S (next_id s))) (attr s), Some (next_id s, S (next_id s)))
+  | None => (s, None)
+  end.
+(* which slot of the original each slot of the duplicate was copied from *)
+Definition dup_sources (s : lstate) : option (nat * nat) := attr s.
+(* MPI_Comm_free of the duplicate runs the delete callback on ITS attribute value: exactly its two communicators go *)
+Definition l_free_dup (d : option (nat * nat)) (s : lstate) : lstate :=
+  match d with
+  | Some (a, b) => mk_ls (remove Nat.eq_dec b (remove Nat.eq_dec a (live s))) (next_id s) (attr s)
+  | None => s
+  end.
+(* MPI calls of MPI_Comm_dup on this rank: 11 Comm_dup (intranode), 12 Comm_dup (internode) inside the copy callback,
+   13 the duplication of the communicator itself *)
+Definition calls_dup (attached : bool) : list nat := (if attached then [11; 12] else []) ++ [13].
